@@ -899,7 +899,7 @@ class Engine:
         n = name[1:]
         r = s.vfs_call(n, args)
         if r is not NotImplemented: return r
-        if n in ('_Znwm', '_Znam', 'malloc'):
+        if n in ('_Znwm', '_Znam', 'malloc', '_ZnwmRKSt9nothrow_t', '_ZnamRKSt9nothrow_t'):
             sz = s.concretize(args[0], 64)
             if sz > (1 << 32): raise Violation('allocation of %d bytes (std::bad_alloc / bad_array_new_length)' % sz)
             return s.alloc(sz, 'heap')
@@ -1046,6 +1046,28 @@ class Engine:
         if n == 'strstr':
             h = s.cstring(args[0]); nd = s.cstring(args[1]); k = h.find(nd); return 0 if k < 0 else args[0] + k
         if n == 'strdup': return s.put_cstring(s.cstring(args[0]), 'heap')
+        # a few more libc routines a change to ninja might plausibly start using (concrete strings only)
+        if n == 'strnlen': t = s.cstring(args[0]); return min(len(t), s.concretize(args[1], 64))
+        if n in ('strncpy', 'stpcpy', 'strcat', 'strncat'):
+            t = s.cstring(args[1]).encode('latin1')
+            if n == 'strncpy':
+                k = s.concretize(args[2], 64); bs = (t + b'\0' * k)[:k]
+                for i, ch in enumerate(bs): s.store(args[0] + i, 1, ch)
+                return args[0]
+            base = args[0] + (len(s.cstring(args[0])) if n in ('strcat', 'strncat') else 0)
+            if n == 'strncat': t = t[:s.concretize(args[2], 64)]
+            for i, ch in enumerate(t + b'\0'): s.store(base + i, 1, ch)
+            return base + len(t) if n == 'stpcpy' else args[0]
+        if n == 'memrchr':
+            a = s.concretize(args[0], 64); c = s.concretize(args[1], 32) & 255; k = s.concretize(args[2], 64)
+            for i in range(k - 1, -1, -1):
+                if s.concretize(s.load(a + i, 1), 8) == c: return a + i
+            return 0
+        if n in ('usleep', 'nanosleep', 'sched_yield', 'posix_fadvise', 'madvise', 'sync'): return 0
+        if n in ('clock_gettime', 'gettimeofday'):
+            s.clock += 1000000; ptr = args[1] if n == 'clock_gettime' else args[0]
+            if ptr: s.store(ptr, 8, s.clock // 1000000000 + 1700000000); s.store(ptr + 8, 8, (s.clock % 1000000000) if n == 'clock_gettime' else (s.clock % 1000000000) // 1000)
+            return 0
         if n in ('strcpy',):
             t = s.cstring(args[1])
             for i, ch in enumerate(t.encode('latin1') + b'\0'): s.store(args[0] + i, 1, ch)
